@@ -19,6 +19,24 @@ TRUSTED = ["CPython ast", "pmcsa/paths.py", "C11/C12 for routing once hasher nod
 AWS = "pymemcache/client/ext/aws_ec_client.py"
 
 
+class _Truth:
+    """A value of which only the truth value is known."""
+
+    __slots__ = ("b",)
+
+    def __init__(self, b):
+        self.b = b
+
+    def __eq__(self, other):
+        return isinstance(other, _Truth) and other.b == self.b
+
+    def __hash__(self):
+        return hash(("_Truth", self.b))
+
+    def __repr__(self):
+        return "Truth(%s)" % self.b
+
+
 class DefDomain(Domain):
     """Possibly-undefined analysis: a local that is read on a path that has not assigned it."""
 
@@ -61,10 +79,25 @@ class DefDomain(Domain):
         return state.get(name, TOP)
 
     def name_store(self, name, value, state, node=None):
-        return state.set(name, TOP)
+        # keep what decides later branches (None-ness, constants, remembered truth values), forget the rest
+        return state.set(name, value if isinstance(value, (Const, _Truth)) else TOP)
 
     def name_del(self, name, state):
         return state.drop(name)
+
+    def truth(self, v, state=None):
+        if isinstance(v, _Truth):
+            return v.b
+        return super().truth(v, state)
+
+    def never_none(self, v):
+        return (isinstance(v, _Truth) and v.b) or super().never_none(v)
+
+    def assume_name(self, key, value, branch, state):
+        # the same parameter / local tested twice takes the same branch twice (correlated conditions)
+        if value is TOP:
+            return state.set(key, _Truth(branch))
+        return super().assume_name(key, value, branch, state)
 
     def call(self, node, fval, args, kwargs, state):
         if call_name(node).startswith(("logger.", "logging.")):
